@@ -175,6 +175,8 @@ impl C03 {
                 _ => 3,
             };
             let srate = match rng.below(5) {
+                // rates up to the top of usize are legal (row 0 only is sampled); a walk then costs O(n), so only on short texts
+                _ if n <= 80 && rng.chance(1, 10) => *rng.pick(&[usize::MAX, usize::MAX - 1, usize::MAX / 2 + 1, (1usize << 32) + 1, u32::MAX as usize]),
                 0 => 1,
                 1 => n + rng.range(0, 3),
                 2 => rng.range(1, n),
@@ -405,6 +407,45 @@ impl Monitor for C03 {
                         }
                     }
                     ctx.shape(true, &("C03", "int", "large"));
+                    return;
+                }
+                16 | 17 => {
+                    // integer texts that use the whole range of their symbol type (alphabet size = type range)
+                    if g == 17 && ctx.tiny() {
+                        return;
+                    }
+                    let desc = |what: &str| Obj::new().s("class", "directed:int-text-over-the-whole-type-range").u("symbol_bits", if g == 16 { 8 } else { 16 }).s("what", what).done();
+                    let (r, len): (Result<Vec<usize>, String>, usize) = if g == 16 {
+                        let mut t: Vec<u8> = (1..=255u8).rev().collect();
+                        t.extend((1..=255u8).map(|v| v.wrapping_mul(7).max(1)));
+                        t.push(0);
+                        let exp = {
+                            let mut e: Vec<usize> = (0..t.len()).collect();
+                            e.sort_by(|&a, &b| t[a..].cmp(&t[b..]));
+                            e
+                        };
+                        let r = guard(|| suffix_array_int(&t).to_vec());
+                        (r.map(|sa| if sa == exp { sa } else { vec![] }), t.len())
+                    } else {
+                        let mut t: Vec<u16> = (1..=65535u16).collect();
+                        rng.shuffle(&mut t);
+                        t.extend((0..3000).map(|_| 1 + rng.below(65535) as u16));
+                        t.push(0);
+                        let exp = {
+                            let mut e: Vec<usize> = (0..t.len()).collect();
+                            e.sort_by(|&a, &b| t[a..].cmp(&t[b..]));
+                            e
+                        };
+                        let r = guard(|| suffix_array_int(&t).to_vec());
+                        (r.map(|sa| if sa == exp { sa } else { vec![] }), t.len())
+                    };
+                    ctx.eval(1);
+                    match r {
+                        Err(p) => ctx.violation(&format!("sa_int:panic:{}", panic_site(&p)), desc(&p)),
+                        Ok(sa) if sa.len() != len => ctx.violation("sa_int:wrong", desc("suffix array differs from the sorted suffix order")),
+                        Ok(_) => ctx.count("int_texts_over_the_whole_type_range", 1),
+                    }
+                    ctx.shape(true, &("C03", "int", "full-range", g));
                     return;
                 }
                 12 => ("directed:multi-adjacent-sentinels", b"AB$$BA$AB$$".to_vec()),
